@@ -73,7 +73,14 @@ def run(clause, ks):
                 if (r1, r2) != want:
                     out.append(dict(t=repr(u), member=repr(m), forward=str(r1), backward=str(r2)))
     elif clause == "dependent_below_bound":
+        def is_inter(b):
+            from ovld.types import MetaMC
+
+            return isinstance(b, MetaMC) and type(b._handler).__name__ == "Intersection"
+
         for d in terms[ks[0]]:
+            if len(ks) > 1 and (ks[1] == "inter_bound") != is_inter(d.bound):
+                continue
             tried += 1
             r1, r2 = safe(typeorder, d, d.bound), safe(typeorder, d.bound, d)
             if (r1, r2) != (Order.LESS, Order.MORE):
@@ -132,7 +139,7 @@ SUITE = list(_pairs()) + [("reflexive", [k]) for k in T.KINDS] + [
     ("intersection_below_members", ["hooked_member"]),
     ("alias_origin", []),
     ("alias_argwise", []),
-] + [("dependent_below_bound", [k]) for k in ["Equals", "FuncDep", "Product"]]
+] + [("dependent_below_bound", [k, b]) for k in ["Equals", "FuncDep"] for b in ("inter_bound", "other_bound")] + [("dependent_below_bound", ["Product"])]
 
 
 if __name__ == "__main__":
